@@ -11,7 +11,9 @@ from ..core import FAILED
 DECIDING = ["contract:partial_trace", "O2:compose", "O2:product", "O2:trace-preserved", "O2:linear", "O3:scalar-dim", "O3:defaults",
             "O4:cvxpy-value", "H1:repeat-call", "O1:many-subsystems"]
 RULE = ("cases = (local dims in 1..4, n<=5, N<=144) x every non-empty subset S (all listing orders for |S|<=3, n<=4) x dtype; "
-        "entries unique ids; a signature is (monitor, n, |S|, non-uniform dims?) and is non-trivial when S is a proper subset")
+        "entries unique ids; a signature is (monitor, n, |S|, non-uniform dims?) and is non-trivial when S is a proper subset; plus int8..uint32 "
+        "inputs with entries near the type limits, 9..13 subsystems, repeat calls with the same index objects, one cvxpy Variable traced under "
+        "several factorisations and after a new value")
 CASE_TIMEOUT = {"quick": 240, "thorough": 3000}
 ASSUMPTIONS = [
     "reference model = einsum contraction of the (d..., d...) tensor; exact for integer dtype, 1e-9 relative otherwise",
